@@ -678,3 +678,38 @@ def saturated_case(draw, max_c=3):
         tl.append([t + draw(st.sampled_from([0, 0, 1])), term, "eo" if term == "E" else None])
     outer = {"kind": draw(st.sampled_from(["cold", "sync", "hot"])), "tl": tl}
     return {"maxc": maxc, "inners": inners, "outer": outer}
+
+
+# ---------------------------------------------------------------------------------------
+# second subscription of the same built observable (per-subscription state must be fresh)
+
+
+def draw_second(draw, case):
+    """In about a third of the cases ask for a second subscription of the SAME built observable: "after" = 1+d ticks
+    after the first subscription's (reference) terminal, "overlap" = d ticks after the first subscribe.  Hot sources are
+    turned into cold ones so that each subscription is independent and the reference applies per subscription."""
+    if draw(st.integers(0, 2)) != 0:
+        return case
+    for spec in list(case["inners"]) + ([case["outer"]] if "outer" in case else []):
+        if spec["kind"] == "hot":
+            spec["kind"] = "cold"
+    case["second"] = {"mode": draw(st.sampled_from(["after", "after", "overlap"])), "d": draw(st.integers(0, 3))}
+    return case
+
+
+def second_tick(sec, t0, first_terminal_tick):
+    if sec["mode"] == "after" and first_terminal_tick is not None:
+        return "after", first_terminal_tick + 1 + sec["d"]
+    return "overlap", t0 + sec["d"]
+
+
+def subs_cover(op, subs):
+    """Every inner subscription the reference expects is present in the real log (multiset inclusion on (src, tick))."""
+    real = [(d["src"], d["sub"]) for d in subs]
+    for j in op.started:
+        key = (op.arrivals[j]["src"], op.arrivals[j]["sub"])
+        if key in real:
+            real.remove(key)
+        else:
+            return ("subs:inner-not-subscribed", f"expected inner subscription (src, tick) {key} not in the log")
+    return None
